@@ -1,6 +1,7 @@
 """pyvc core: path exploration by re-execution, solver plumbing, obligations."""
 from __future__ import annotations
 
+import json
 import time
 from typing import Any, Callable, Optional
 
@@ -331,6 +332,7 @@ class Ctx:
         except z3.Z3Exception:
             return {}
         out: dict[str, Any] = {}
+        self._decoded_strings: dict[str, Any] = {}
         for name, term in self.input_symbols.items():
             try:
                 if name.endswith("[]") and z3.is_array(term) and f"len({name[:-2]})" in self.input_symbols:
@@ -354,6 +356,19 @@ class Ctx:
                     out[name] = str(val)
             except Exception:  # pylint: disable=broad-except
                 out[name] = "?"
+        # value maps of symbolic dicts keyed by strings: spell out the entries of every string of the model
+        for name, term in self.input_symbols.items():
+            try:
+                if name.endswith(".vals") and z3.is_array(term) and term.sort().domain() == StrSort:
+                    base = name[:-5]
+                    for text, sval in list(self._decoded_strings.items()):
+                        self._model_element(model, f"{base}[{json.dumps(text)}]",
+                                            model.eval(z3.Select(term, sval), model_completion=True), out)
+                    other = z3.Const("str:!other", StrSort)
+                    self._model_element(model, f"{base}.default",
+                                        model.eval(z3.Select(term, other), model_completion=True), out)
+            except Exception:  # pylint: disable=broad-except
+                pass
         return out
 
     def _model_element(self, model: Any, name: str, val: Any, out: dict[str, Any]) -> None:
@@ -378,6 +393,7 @@ class Ctx:
         carrying the affixes the model's startswith/endswith predicates require"""
         for text, const in self.strlits.items():
             if model.eval(const, model_completion=True).eq(val):
+                self._decoded_strings[text] = val
                 return text
         pre = suf = ""
         for (kind, affix), func in self.str_preds.items():
@@ -386,7 +402,9 @@ class Ctx:
                     pre = affix
                 elif kind == "endswith" and len(affix) > len(suf):
                     suf = affix
-        return pre + "~" + str(val).rsplit("!", 1)[-1] + "~" + suf
+        text = pre + "~" + str(val).rsplit("!", 1)[-1] + "~" + suf
+        self._decoded_strings[text] = val
+        return text
 
     def cover(self, label: str) -> None:
         """Vacuity guard: the current path condition must be satisfiable."""
